@@ -18,6 +18,19 @@ OBS_PROPS = {"LIST": ["C02"], "LIST_TWICE": ["C02"], "TIMES": ["C01"], "DURATION
              "OPENQL": ["C15"], "REPR": ["C03"], "COPYOBS": ["C05"], "FULL": ["C02"], "PLOT": ["C18"]}
 
 
+def _ref_signature(ref):
+    """How the object the implementation linked to is itself related (one level up): used only to tell apart
+    unbound model members that carry the same label."""
+    L = WORLD.lib
+    link = ref.relation_link
+    if isinstance(link, L.MultiRelationLink):
+        return ["MULTI", None]
+    up = link.reference_node
+    if up is None:
+        return ["-", None]
+    return [link.relation_type.name, ["COMP", []] if observe.kind_of(up) == "COMP" else observe.static_label(up)]
+
+
 class Feed:
     """Drives the reference model from a quiescent replay (follows the implementation's admissible choices)."""
 
@@ -68,6 +81,7 @@ class Feed:
             else:
                 impl["ref_key"] = id(ref)
                 impl["ref_label"] = ["COMP", []] if observe.kind_of(ref) == "COMP" else observe.static_label(ref)
+                impl["ref_sig"] = _ref_signature(ref)
             if not pl["ret_is_op"]:
                 self.findings.append(oracles.F(["C02"], "add-did-not-return-the-operation", step=i))
             v = M.add_op(name, st, impl)
@@ -96,6 +110,7 @@ class Feed:
             else:
                 impl["ref_key"] = id(ref)
                 impl["ref_label"] = ["COMP", []] if observe.kind_of(ref) == "COMP" else observe.static_label(ref)
+                impl["ref_sig"] = _ref_signature(ref)
             v = M.add_op_in(name, st, impl)
             if not v.get("ok", True):
                 self.findings.append(oracles.F(["C01"], "placement", step=i, nested=True, **{k: x for k, x in v.items() if k != "ok"}))
@@ -114,6 +129,7 @@ class Feed:
                 impl = {"rt": sp["rt"], "ref_key": None if ref is None else id(ref)}
                 if ref is not None:
                     impl["ref_label"] = ["COMP", []] if observe.kind_of(ref) == "COMP" else observe.static_label(ref)
+                    impl["ref_sig"] = _ref_signature(ref)
                 v2 = M.place_sub(name, c, impl, v)
                 if not v2.get("ok", True):
                     self.findings.append(oracles.F(["C01"], "placement-subcircuit", step=i, **{k: x for k, x in v2.items() if k != "ok"}))
